@@ -26,7 +26,7 @@ for c in checks["checks"]:
       "quick_cmd": f"sh /verif/scripts/check.sh {pid} quick",
       "thorough_cmd": f"sh /verif/scripts/check.sh {pid} thorough",
       "evidence_file": f"/verif/evidence/{pid}.json",
-      "replay_cmd_template": "/verif/bin/vcheck replay {path}",
+      "replay_cmd_template": ("/verif/bin/vcheck-sched replay {path}" if pid=="C17" else "/verif/bin/vcheck replay {path}"),
       "engine": c["engine"],
       "level_claimed": {"category": c["category"], "text": c["text"], "design_ref": c.get("design_ref","DESIGN.md §3 "+pid)},
       "level_note": c["level_note"],
